@@ -359,6 +359,10 @@ func LogSpan(dst []complex128, l, u complex128) []complex128 {
 	for i := range dst {
 		dst[i] = cmplx.Exp(dst[i])
 	}
+	if l != 0 && u != 0 && !cmplx.IsNaN(l) && !cmplx.IsNaN(u) && !cmplx.IsInf(l) && !cmplx.IsInf(u) {
+		// Make sure the end points are exactly l and u despite rounding.
+		dst[0], dst[len(dst)-1] = l, u
+	}
 	return dst
 }
 
